@@ -47,10 +47,11 @@ def check(run):
     sessions = [refexp.gen_session(rng, rotations=True, late_bps=True, compress=rng.choice(["n", "g", "x"]),
                                    target=rng.choice(["fd", "nm"]), maxes=[0, 1, 2, 3, 5, 100], nops=rng.randrange(1, 40),
                                    end_flush=rng.random() < 0.7, simple_bp=rng.random() < 0.5) for _ in range(n)]
+    sessions += refexp.alignment_sweep(rng, range(0, 2101, 3), rotate=True)
     res = E.run_sessions(run, sessions, need_rd=False, need_lean=False)
     seen = set()
     for s, r in zip(sessions, res):
-        run.case(s[0][:300], True)
+        run.case(s[0][:300], True, key=s[0])
         run.count("compression:" + r["comp"])
         E.record_failures(run, s, judge_bytes(s, r), seen)
 
